@@ -56,6 +56,8 @@ type ASSpec struct {
 
 type Topo struct {
 	ASes []ASSpec
+	// MaxHops, if > 0, replaces the default maximum beacon length (10 AS entries) of all policies.
+	MaxHops int
 }
 
 // ---------------------------------------------------------------------------------------------
@@ -180,13 +182,21 @@ func New(t Topo, signers func(ia addr.IA) beaconing.SignerGen, verifier infra.Ve
 		}
 		a.DB = db
 		if spec.Core {
-			st, err := beacon.NewCoreBeaconStore(beacon.CorePolicies{}, db)
+			cp := beacon.CorePolicies{}
+			if t.MaxHops > 0 {
+				cp.Prop.Filter.MaxHopsLength, cp.CoreReg.Filter.MaxHopsLength = t.MaxHops, t.MaxHops
+			}
+			st, err := beacon.NewCoreBeaconStore(cp, db)
 			if err != nil {
 				return nil, err
 			}
 			a.Store = st
 		} else {
-			st, err := beacon.NewBeaconStore(beacon.Policies{}, db)
+			np := beacon.Policies{}
+			if t.MaxHops > 0 {
+				np.Prop.Filter.MaxHopsLength, np.UpReg.Filter.MaxHopsLength, np.DownReg.Filter.MaxHopsLength = t.MaxHops, t.MaxHops, t.MaxHops
+			}
+			st, err := beacon.NewBeaconStore(np, db)
 			if err != nil {
 				return nil, err
 			}
